@@ -383,10 +383,21 @@ impl<'a, 'tcx> Cx<'a, 'tcx> {
           if s.len() > 200 {
             s.truncate(200);
           }
+          let literal = s.chars().next().map_or(false, |ch| ch.is_ascii_digit() || ch == '-');
           o.push(("v", J::s(s)));
           if t.is_bool() {
             if let Some(b) = c.const_.try_to_bool() {
               o.push(("b", J::Bool(b)));
+            }
+          } else if t.is_integral() && !literal {
+            // a named constant (`WAITING`): record its value so that rules can compare it with literals
+            let env = ty::TypingEnv::post_analysis(self.tcx, owner);
+            if let Some(si) = c.const_.try_eval_scalar_int(self.tcx, env) {
+              let size = si.size();
+              let v: i128 = if t.is_signed() { si.to_int(size) } else { si.to_uint(size) as i128 };
+              if v >= i64::MIN as i128 && v <= i64::MAX as i128 {
+                o.push(("iv", J::Num(v as i64)));
+              }
             }
           }
         }
